@@ -119,6 +119,20 @@ def build_class(spec, name=None):
         from frappy.datatypes import FloatRange
         feat = type('Feat', (Feature,), {'featpar': Parameter('feature parameter', FloatRange(0, 10), default=1, readonly=False)})
         blist.insert(0, feat)
+    if spec.get('optional'):
+        # accessibles declared optional in a base class and not implemented here: they do not exist on the instances
+        from frappy.datatypes import FloatRange as _FR
+        oattrs = {}
+        for oname in spec['optional']:
+            if oname.startswith('oc'):
+                oattrs[oname] = Command(optional=True, description='optional command')
+            else:
+                oattrs[oname] = Parameter('optional parameter', _FR(), optional=True)
+        blist[-1] = type('WithOptional', (blist[-1],), oattrs)
+    if spec.get('indirect'):
+        # everything (incl. a feature mixin) is inherited through an intermediate class
+        mid = type('Generic', tuple(blist), attrs)
+        return type(name or f'Gen{next(_n)}', (mid,), {'__doc__': 'derived without changes'})
     cls = type(name or f'Gen{next(_n)}', tuple(blist), attrs)
     return cls
 
